@@ -505,7 +505,9 @@ func (h *Session) SetDHCPv4IPOffer(mac net.HardwareAddr, ip netip.Addr, name Nam
 	defer h.mutex.Unlock()
 	macEntry := h.MACTable.findOrCreate(mac)
 	macEntry.IP4Offer = ip
+	macEntry.Row.Lock() // the names are read by notifications under the row lock
 	macEntry.DHCP4Name = name
+	macEntry.Row.Unlock()
 }
 
 // DHCPv4Offer returns the dhcp v4 ip offer if one is available.
